@@ -446,6 +446,32 @@ def run_c14(chk):
     res4 = chk.replay("schema-determ", sub, "determ_proc1", workers=8, timeout="120s")
     chk.absorb("schema-determ", sub, res4)
     collect_refs(chk, sub, res4, refs2, "run1", keyf=lambda c: c["id"])
+    # --- (iii) entity declarations (spec/J5Entity.tla): the generated files carry several extension options on one element
+    # (psm + message on Keys / Data / State / Event), services, topics - printed repeatedly, with and without the generated
+    # files committed next to the source
+    re_ = chk.tlc("J5EntityMC.tla", "J5Entity_quick.cfg", "entities", workers=8, timeout=1800)
+    ents = re_.cases
+    re_.cases = []
+    random.Random(chk.seed).shuffle(ents)
+    seen_e, first_e, rest_e = set(), [], []
+    for c in ents:
+        k = c.get("focus", "")
+        (rest_e if k in seen_e else first_e).append(c)
+        seen_e.add(k)
+    ents = (first_e + rest_e)[: (250 if quick else 3000)]
+    pres = chk.replay("entity-print", ents, "entprint", workers=8, timeout="60s")
+    eraw = []
+    for e in pres:
+        note = ((e.get("out") or {}).get("note") or "").split("\nERROR:")[0]
+        if note:
+            eraw.append({"id": "entity-%d" % len(eraw), "focus": "entity", "files": {"foo/v1/wallet.j5s": note}, "reps": 4})
+    rese = chk.replay("schema-determ", eraw, "determ_ent", workers=8, timeout="120s")
+    crashes_to_rejections(rese)
+    chk.absorb("schema-determ", eraw, rese)
+    note_rejections(chk, eraw, rese)
+    chk.extra_cov["entity_declarations_permuted"] = len(eraw)
+    if not eraw:
+        chk.machinery_errors.append("no entity declaration reached the determinism driver")
     # --- direction T
     for name, (hs, tcfg) in per_bundle.items():
         idx = {id(c): i for i, c in enumerate(all_payload)}
